@@ -2,6 +2,7 @@ import Pycoin.Py.Bytes
 import Pycoin.Model.Hash
 import Pycoin.Model.Curve
 import Pycoin.Model.Base58
+import Pycoin.Model.Base58Hash
 import Pycoin.Model.NetworkDef
 import Pycoin.Model.Subpaths
 /-!
@@ -648,27 +649,33 @@ def parsePrefix (net : Network) : Kind → Bool → Option Bytes
   | .bip49, true => net.parseBip49Prv | .bip49, false => net.parseBip49Pub
   | .bip84, true => net.parseBip84Prv | .bip84, false => net.parseBip84Pub
 
-/-- `node.hwif(as_private)` = `as_text`: `serialize` first, then `b2a_hashed_base58(prefix + blob)`;
-the text is given by its ASCII bytes.  Networks whose Base58Check hash is not double SHA-256 (Groestlcoin family)
-are outside the model (`none`). -/
-def hwif (net : Network) (n : Node) (asPrivate : Bool) : Option (Except Err Bytes) :=
-  if !net.b58DoubleSha then none
-  else some <|
-    match n.serialize (some asPrivate) with
-    | .error e => .error e
-    | .ok blob =>
-      match outPrefix net n.kind asPrivate with
-      | none => .error .type                      -- `None + blob`
-      | some p =>
-        match Base58.b2aHashed (p ++ blob) with
-        | .ok t => .ok t
-        | .error _ => .error .encoding            -- unreachable (`C11_b58_dec_enc`)
+/-- the checksum hash of the closure a node class's `hwif` goes through (`bip32_as_string` / `bip49_as_string` /
+`bip84_as_string`: `bitcoinish.py`, replaced in the Groestlcoin symbol files), found by probing each closure -/
+def outHash (net : Network) : Kind → Pycoin.Addr.HashKind
+  | .bip32 => net.hashBip32
+  | .bip49 => net.hashBip49
+  | .bip84 => net.hashBip84
+
+/-- `node.hwif(as_private)` = `as_text`: `serialize` first, then `b2a_hashed_base58(prefix + blob)` — on the
+Groestlcoin family `b2a_hashed_base58_grs` — i.e. Base58Check under the closure's checksum hash `outHash`;
+the text is given by its ASCII bytes. -/
+def hwif (net : Network) (n : Node) (asPrivate : Bool) : Except Err Bytes :=
+  match n.serialize (some asPrivate) with
+  | .error e => .error e
+  | .ok blob =>
+    match outPrefix net n.kind asPrivate with
+    | none => .error .type                      -- `None + blob`
+    | some p =>
+      match Base58.b2aHashedK (outHash net n.kind) (p ++ blob) with
+      | .ok t => .ok t
+      | .error _ => .error .encoding            -- unreachable (`Base58.b2aK_ok`)
 
 def isPrefixOf (p d : Bytes) : Bool := d.take p.length == p
 
-/-- `hparse(api, pub_prv, key_type, s)` — text given by its UTF-8 bytes; `none` is Python's `None` -/
+/-- `hparse(api, pub_prv, key_type, s)` — text given by its UTF-8 bytes; `none` is Python's `None`;
+`api.parse_b58_hashed` is Base58Check under the network's parse-side checksum hash -/
 def hparse (g : Gen) (net : Network) (kind : Kind) (prv : Bool) (s : Bytes) : Except Err (Option Node) :=
-  match Base58.parseB58DoubleSha256 s, parsePrefix net kind prv with
+  match Base58.parseB58HashedK net.hashParse s, parsePrefix net kind prv with
   | some data, some p =>
     if !isPrefixOf p data then .ok none
     else if data.length ≠ 78 then .ok none
